@@ -153,6 +153,14 @@ def model_events(actions, gated=False):
         if kind == "connect":
             evs += [[CONNECT, 0, ""], [GREETING, n, ""], [LOGOUT, n, ""]]
             n += 1
+        elif kind == "connect_many":
+            # a[1] connections accepted in ONE pass of the event loop: every dispatcher takes its first step (creates the
+            # connection object and the greeting task) before any greeting task runs
+            m = a[1]
+            evs += [[CONNECT, 0, ""] for _ in range(m)]
+            evs += [[GREETING, n + j, ""] for j in range(m)]
+            evs += [[LOGOUT, n + j, ""] for j in range(m)]
+            n += m
         elif kind == "cmds":
             i = a[1]
             for c in a[2]:
@@ -380,6 +388,21 @@ def run_impl(cfg, actions, segment=False):
                 want = ["421"] if full else ["220"]
                 if codes != want:
                     bad.append(("c10-admission-421", f"greeting {codes}, expected {want} (admitted before: {count_admitted()})"))
+            elif kind == "connect_many":
+                # m clients connect at the same moment: all are accepted in one pass of the loop.  Exactly the free
+                # slots are handed out (first come), everybody else is told 421 - nobody is left without a greeting
+                before = count_admitted()
+                new = await asyncio.gather(*[Raw.connect(net, PORT) for _ in range(a[1])])
+                raws.extend(new)
+                await net.settle()
+                for j, raw in enumerate(new):
+                    got = final_codes(raw.take())
+                    full = cfg["limit"] is not None and before + j >= cfg["limit"]
+                    want = ["421"] if full else ["220"]
+                    if got != want:
+                        bad.append(("c10-admission-421", f"simultaneous connect #{j} of {a[1]}: greeting {got or 'none (EOF)' if raw.reader.at_eof() else got}, "
+                                                          f"expected {want} (admitted before: {before}, limit {cfg['limit']})"))
+                    codes += got
             elif kind == "cmds":
                 raw = raws[a[1]]
                 if conn_of(raw) is not None:
@@ -581,6 +604,8 @@ def check_history(ctx, cfg, actions, msnaps, bounds, segment, stream):
     for k, a in enumerate(actions):
         if a[0] in ("connect", "connect_close"):
             nsess += 1
+        if a[0] == "connect_many":
+            nsess += a[1]
         real = snaps[k]
         msrv, mucs, msess, merrs = model_view(msnaps[bounds[k]], nsess)
         mcodes = expected_codes(msnaps, prev + 1, bounds[k], a)
@@ -771,6 +796,33 @@ def teardown_sweep(kmax, k2s):
     return out
 
 
+def simultaneous():
+    """the last free slot(s) contested by clients connecting at the same moment: limit L, p sessions already
+    admitted (some logged in), m simultaneous connects, everybody leaves in some way, then L + 1 sequential connects
+    must again see exactly L admissions; also a simultaneous burst right after a slot was given back"""
+    out = []
+    for limit in (1, 2, 3):
+        for p in range(limit + 1):
+            for m in (2, 3):
+                pre = []
+                for j in range(p):
+                    pre += [("connect",)] + ([("cmds", j, [("USER", "b")])] if j % 2 == 0 else [])
+                n = p + m
+                for leave in ("quit", "drop", "close"):
+                    acts = list(pre) + [("connect_many", m)]
+                    acts += [("cmds", p, [("USER", "b")])]
+                    if leave == "close":
+                        acts += [("close",), ("restart",)]
+                    else:
+                        acts += [ending_action(leave, j) for j in range(n)]
+                    acts += [("connect",)] * (limit + 1)
+                    out.append((limit, acts))
+                if p >= 1:  # a slot comes back and is contested at once
+                    acts = list(pre) + [("connect_many", m), ending_action("drop", 0), ("connect_many", 2), ("connect",)]
+                    out.append((limit, acts))
+    return out
+
+
 def random_history(rng, max_sessions=3, length=14):
     acts = []
     n = 0
@@ -780,8 +832,12 @@ def random_history(rng, max_sessions=3, length=14):
         if n == 0 or (r < 0.22 and n < max_sessions and not closed):
             if closed:
                 break
-            acts.append(("connect",))
-            n += 1
+            if rng.random() < 0.25 and n + 2 <= max_sessions + 1:
+                acts.append(("connect_many", 2))  # two clients at the same moment
+                n += 2
+            else:
+                acts.append(("connect",))
+                n += 1
             continue
         i = rng.randrange(n)
         r = rng.random()
@@ -900,6 +956,11 @@ def correspondence(ctx, budget=None):
     for c in [make_cfg(1, "ab", 1, 1)] + ([make_cfg(2, "ab", 1, 2), make_cfg(2, "a_anon", 1, 1)] if thorough else []):
         for s in ts:
             jobs.append(("teardown-sweep", c, s, False))
+    # (e) simultaneous connects for the last free slot(s)
+    for limit, acts in simultaneous():
+        for us, la, lb in (("ab", 1, None), ("a_anon", None, 2)) if thorough else (("ab", 1, None),):
+            jobs.append(("simultaneous", make_cfg(limit, us, la, lb), acts, False))
+    ctx.count("simultaneous_histories", sum(1 for j in jobs if j[0] == "simultaneous"))
     ctx.count("teardown_gated_histories", sum(1 for j in jobs if j[0] == "teardown-gated"))
     ctx.count("teardown_sweep_histories", sum(1 for j in jobs if j[0] == "teardown-sweep"))
 
